@@ -94,7 +94,9 @@ class Table:
     def __init__(self, n, ints):
         self.n, self.t = n, ints
         self.M = (1 << n) - 1
-        assert len(ints) == n + n * self.M + 3 * self.M, (n, len(ints))
+        fixed = n + n * self.M + 3 * self.M
+        assert len(ints) > fixed, (n, len(ints))
+        self.covers = ints[fixed:]          # masks of the non-empty down-closed sets (commit-graph extents)
         self.o_mb = n
         self.o_oct = n + n * self.M
         self.o_ind = self.o_oct + self.M
@@ -174,6 +176,25 @@ def shared_store_repo():
     return r
 
 
+def attach_commit_graph(h, cover):
+    """Give the (memory) repository of h a commit-graph covering exactly `cover` (a down-closed
+    list of commits): generated by dulwich's generate_commit_graph, serialised by write_to_file
+    and read back by CommitGraph.from_file, then handed out by the store's get_commit_graph()
+    (the hook every ParentsProvider uses).  cover = None detaches it."""
+    store = h.repo.object_store
+    if cover is None:
+        store.__dict__.pop("get_commit_graph", None)
+        return
+    import io
+    from dulwich.commit_graph import CommitGraph, generate_commit_graph
+    g = generate_commit_graph(store, h.idl(cover))
+    buf = io.BytesIO()
+    g.write_to_file(buf)
+    buf.seek(0)
+    g2 = CommitGraph.from_file(buf)
+    store.get_commit_graph = lambda: g2
+
+
 class Hist:
     """A history built as real dulwich objects in a MemoryRepo (or any repo passed in)."""
 
@@ -241,7 +262,7 @@ class Hist:
 
     def record(self, tid, queries):
         r = {"tid": tid, "par": [list(p) for p in self.par], "ts": list(self.ts), "rank": list(self.rank),
-             "q": queries}
+             "q": queries, "cg": []}
         if self.cuts:
             r["cuts"] = {str(c): list(v) for c, v in self.cuts.items()}
             r["obj_par"] = [list(p) for p in self.obj_par]
@@ -559,6 +580,47 @@ def run_dag(task):
                     q["m"] = 1
                     q["pre"] = 1
                     ship.append(q)
+            # --- the same questions with a commit-graph covering a TLC-enumerated down-closed part of
+            #     the history (stale / partial / complete accelerator): answers must not depend on it
+            if rng.random() < plan.get("p_cover", 0.0):
+                for cm in rng.sample(table.covers, min(plan.get("n_cover", 1), len(table.covers))):
+                    cover = set_of(cm)
+                    attach_commit_graph(h, cover)
+                    try:
+                        qc = []
+                        for a in range(1, n + 1):
+                            for b in range(1, n + 1):
+                                qc.append(q_ff(h, a, b))
+                                if a < b:
+                                    qc.append(q_mb(h, a, [b]))
+                        for sm in rng.sample(multi, min(3, len(multi))):
+                            s_ = set_of(sm)
+                            qc.append(q_ind(h, s_))
+                            qc.append(q_oct(h, s_[::-1]))
+                            qc.append(q_mb(h, s_[0], s_[1:]))
+                        for _ in range(4):
+                            im, em = rng.choice(allsets), rng.choice([0] + allsets)
+                            qc.append(q_walk(h, set_of(im), set_of(em), topo=rng.randrange(2)))
+                    finally:
+                        attach_commit_graph(h, None)
+                    shipc = []
+                    for q in qc:
+                        ok, rel = ex.check(q)
+                        bk = res["by_kind"].setdefault(q["k"] + "+cg", [0, 0])
+                        bk[0] += 1
+                        q["cg"] = "dulwich-memory"
+                        if not ok:
+                            bk[1] += 1
+                            q["m"], q["pre"] = 1, 0
+                            shipc.append(q)
+                    qs_n = len(qc)
+                    res["queries"] += qs_n
+                    res["suspect_q"] += len(shipc)
+                    if shipc:
+                        rec = h.record(0, shipc)
+                        rec["mode"] = mode
+                        rec["cg"] = sorted(cover)
+                        res["records"].append(rec)
             res["cases"] += 1
             res["queries"] += len(qs)
             res["suspect_q"] += sum(1 for q in ship if q["pre"] == 0)
